@@ -47,7 +47,7 @@ def consts(**kw):
     c = dict(MaxOps=3, KindsM=ALL_KINDS, CmpOpsM={1}, LogSpM={2}, WithFunc=False, TypedM=False,
              Ladder="lark", AndOrParens=True, CmpParens=True, OuterRule="matched", DenoteLadder="ms",
              AllCmpOps=set(exprtok.CMP_OPS), RootCmpOps={i for i in exprtok.CMP_OPS if i <= 19}, AllLogSp={1, 2, 3}, AtomIds=set(exprtok.ATOMS),
-             FuncIds=set(exprtok.FUNCS), MaxWalkOps=12, RootKindsS=ALL_KINDS | {"ATOM"})
+             FuncIds=set(exprtok.FUNCS), MaxWalkOps=12, RootKindsS=set())
     c.update(kw)
     return c
 
